@@ -950,7 +950,7 @@ def add_admid(model: Model):
     di = model.datainfo
     if "admid" not in di.types:
         adm = get_admid(model)
-        dataset = model.dataset
+        dataset = model.dataset.copy()
         dataset["ADMID"] = adm
         di = update_datainfo(model.datainfo, dataset)
         colinfo = di['ADMID'].replace(type='admid')
@@ -1075,7 +1075,7 @@ def add_cmt(model: Model):
     if "compartment" not in di.types:
         cmt_name = "CMT"
         cmt = get_cmt(model)
-        dataset = model.dataset
+        dataset = model.dataset.copy()
         dataset[cmt_name] = cmt
         di = update_datainfo(model.datainfo, dataset)
         colinfo = di[cmt_name].replace(type='compartment')
